@@ -2,7 +2,7 @@
 import hashlib
 
 from ..core import Prop, Suite
-from ..coqlit import cstr
+from ..coqlit import clist, copt, cpair, cstr
 from ..suites_l0 import Registry
 from ..suites_chain import ChainBuild
 
@@ -92,9 +92,117 @@ class NameModeLayout(Suite):
         return repr(case)
 
 
+class Naming(Suite):
+    """MetaTask.slugname / fullname and the module-derived groups of ModuleTask / DoubleModuleTask against the model
+    (Model/Naming.v): classes are created with type() under generated ASCII names, groups, explicit names and modules"""
+    name = 'task_naming'
+    imports = 'Naming'
+    shard = 400
+    in_type = '(str * option str * str * option str * (option str * str))'
+    out_type = 'list str'
+    prelude = '''
+Fixpoint strs_eqb (a b : list str) : bool :=
+  match a, b with [], [] => true | x :: a', y :: b' => str_eqb x y && strs_eqb a' b' | _, _ => false end.
+Definition naming_model (c : str * option str * str * option str * (option str * str)) : list str :=
+  let '(group, name, cname, ns, (mgroup, module)) := c in
+  [ slug_name group name cname; full_name ns (slug_name group name cname);
+    slug_name (module_group module) name cname; slug_name (double_module_group mgroup module) name cname ].
+'''
+    eqb = 'strs_eqb'
+    model = 'naming_model'
+    CNAMES = ['PrepareData', 'PrepareTask', 'Task', 'ATask', 'HTTPServer', 'My_Task', 'K01', 'prepare', 'Prepare_task', 'XTaskY',
+              'TaskTask', 'A', 'Ab', 'aB', 'X1Y2', 'Features_', '_Hidden', 'Clean_Task', 'cleanTASK', 'T_task']
+    NAMES = [None, None, 'x', 'prepare_task', '_task', 'task', 'Mixed_Case', 'a_task_', 'UPPER', 'with space', 'g:sub', '']
+    GROUPS = ['', '', 'g', 'g:h', 'Group', 'a_task']
+    MODULES = ['features', 'pkg.features', 'pkg.sub.features', 'a.b.c.d', 'Tasks.Mod']
+
+    def corpus(self):
+        return [dict(group=g, name=n, cname=c, ns=ns, mgroup=mg, module=m)
+                for g, n, c, ns, mg, m in [('', None, 'PrepareTask', None, None, 'pkg.features'),
+                                           ('g', 'prepare_task', 'X', 'train', None, 'features'),
+                                           ('g:h', None, 'HTTPServer', 'a::b', 'own', 'pkg.sub.features'),
+                                           ('', '', 'Named', None, None, 'pkg.features')]]
+
+    def gen(self, rng, tier):
+        import string
+        out = []
+        for _ in range(300 if tier == 'quick' else 6000):
+            if rng.random() < 0.5:
+                cname = rng.choice(self.CNAMES)
+            else:
+                cname = rng.choice(string.ascii_letters + '_') + ''.join(
+                    rng.choice(string.ascii_letters + string.digits + '_') for _ in range(rng.randrange(0, 9)))
+                if rng.random() < 0.3:
+                    cname += rng.choice(['Task', '_task', '_Task', 'task', 'TASK'])
+            out.append(dict(group=rng.choice(self.GROUPS), name=rng.choice(self.NAMES), cname=cname,
+                            ns=rng.choice([None, None, 'n', 'outer::n']), mgroup=rng.choice([None, None, 'own', 'a:b']),
+                            module=rng.choice(self.MODULES)))
+        return out
+
+    def run_impl(self, case):
+        import sys, types
+        from taskchain.task import Task, ModuleTask, DoubleModuleTask
+        mod = 'tcvnaming.' + case['module']
+        made = []
+        parts = mod.split('.')
+        for i in range(1, len(parts) + 1):
+            n = '.'.join(parts[:i])
+            if n not in sys.modules:
+                sys.modules[n] = types.ModuleType(n)
+                made.append(n)
+        try:
+            def make(base, group):
+                meta = {}
+                if group is not None:
+                    meta['task_group'] = group
+                if case['name'] is not None:
+                    meta['name'] = case['name']
+                return type(base)(case['cname'], (base,), {'Meta': type('Meta', (), meta), '__module__': mod})
+            plain = make(Task, case['group'] if case['group'] else None)
+            cfg = types.SimpleNamespace(namespace=case['ns'])
+            return dict(names=[plain.slugname, plain.fullname(cfg), make(ModuleTask, None).slugname,
+                               make(DoubleModuleTask, case['mgroup']).slugname])
+        finally:
+            for n in made:
+                sys.modules.pop(n, None)
+
+    def encode(self, case, obs):
+        i = cpair(cstr(case['group']), copt(case['name'], cstr), cstr(case['cname']), copt(case['ns'], cstr),
+                  cpair(copt(case['mgroup'], cstr), cstr('tcvnaming.' + case['module'])))
+        return i, clist([cstr(n) for n in obs.get('names', ['<exception>'])])
+
+    def oracle(self, case, obs):
+        """the rule of the pinned release, written out independently of the model"""
+        if 'unexpected_exception' in obs:
+            return f'unexpected exception {obs["unexpected_exception"]}: {obs["text"]}'
+        import re
+        if case['name'] is not None:
+            base = case['name']
+        else:
+            base = re.sub(r'(?<!^)(?=[A-Z])', '_', case['cname']).lower()
+            base = base[:-5] if base.endswith('_task') else base
+        mparts = ('tcvnaming.' + case['module']).split('.')
+        groups = [case['group'], None, mparts[-1], case['mgroup'] if case['mgroup'] is not None else ':'.join(mparts[-2:])]
+        want = []
+        for k, g in enumerate(groups):
+            if k == 1:
+                want.append((case['ns'] + '::' if case['ns'] is not None else '') + want[0])
+            else:
+                want.append(f'{g}:{base}' if g else base)
+        if obs['names'] != want:
+            return f'{case}: the names are {obs["names"]}; the naming rule of release 1.4.0 gives {want}'
+        return None
+
+    def nontrivial(self, case, obs):
+        return case['name'] is None or case['name'].endswith('_task')
+
+    def key(self, case):
+        return repr(case)
+
+
 class C12(Prop):
     pid = 'C12'
-    suites = [Registry(), Keys(), Sha(), NameModeLayout()]
+    suites = [Registry(), Keys(), Sha(), NameModeLayout(), Naming()]
     trusted_base = ['SHA-256: the Gallina implementation is checked against FIPS vectors (kernel) and hashlib (correspondence)',
                     'the frozen re-implementation harness/tcv/oracle_frozen.py and the golden literals were produced at the pinned commit']
     assumptions = ['parameter mode; name mode (key = config name) is exercised by the C20 harness']
